@@ -916,3 +916,83 @@ def str_templates(ctx, r):
             want.append(", " if i < k - 1 else ")")
         check(ty, norm_tpl(want), lambda f=f: norm_tpl(str_template(body_expr(f), {}, fns)))
     r.count("ToString templates", n, 11, PRELUDE)
+
+
+@rule("CHAIN-WALK", ["C27"], "collision chains in core/map are walked with an unconditional advance, a trailing pointer that is always the predecessor, a full (hash and key) match test, and slots whose parallel arrays are all written")
+def chain_walk(ctx, r):
+    mp = abra(ctx, r, MAP)
+    if mp is None:
+        return
+    fns = [f for it in mp if it[0] in ("extend", "implement") for f in (it[2] if it[0] == "extend" else it[3])]
+    n_walk = 0
+    n_slot = 0
+    for f in fns:
+        if f[4] is None:
+            continue
+        for w in A.walk(f[4]):
+            if not (isinstance(w, tuple) and w and w[0] == "while"):
+                continue
+            body = w[2][1]
+            # cursor: `c = self.entry_nexts[c]`
+            adv = [(i, s) for i, s in enumerate(body) if s[0] == "assign" and s[1] == "=" and s[2][0] == "var" and s[3][0] == "index" and A.show(s[3][1]).endswith("entry_nexts") and A.show(s[3][2]) == s[2][1]]
+            nested_adv = [s for s in A.walk(w[2]) if isinstance(s, tuple) and s and s[0] == "assign" and s[2][0] == "var" and s[3][0] == "index" and A.show(s[3][1]).endswith("entry_nexts") and A.show(s[3][2]) == s[2][1]]
+            if not nested_adv:
+                continue
+            n_walk += 1
+            key = f"map.abra:{f[1]}:chain-walk"
+            cur = nested_adv[0][2][1]
+            ok_adv = len(adv) == 1 and len(nested_adv) == 1 and adv[0][0] == len(body) - 1
+            conts = [s for s in A.walk(w[2]) if isinstance(s, tuple) and s and s[0] == "continue"]
+            r.ob(ok_adv and not conts, key + ":advance-not-unconditional", MAP, w[-1],
+                 f"map.{f[1]}: the chain cursor `{cur}` must advance exactly once per iteration, as the last top-level statement of the loop, and no `continue` may skip it", sample=f"map.{f[1]}: `{cur} = entry_nexts[{cur}]` closes every iteration")
+            r.ob(A.show(w[1]).replace(" ", "") in (f"{cur}!=-1", f"({cur}!=-1)"), key + ":termination", MAP, w[-1], f"map.{f[1]}: the walk must run until the end-of-chain marker (`{cur} != -1`); it runs while `{A.show(w[1])}`", sample=f"map.{f[1]}: while {A.show(w[1])}")
+            # trailing pointers: variables assigned from the cursor inside the loop
+            trails = [s for s in A.walk(w[2]) if isinstance(s, tuple) and s and s[0] == "assign" and s[1] == "=" and s[2][0] == "var" and s[3] == ("var", cur) or (isinstance(s, tuple) and s and s[0] == "assign" and s[2][0] == "var" and s[3][0] == "var" and s[3][1] == cur and s[2][1] != cur)]
+            seen = set()
+            for t in trails:
+                tv = t[2][1]
+                if tv in seen:
+                    continue
+                seen.add(tv)
+                top = [i for i, s in enumerate(body) if s is t]
+                all_t = [s for s in trails if s[2][1] == tv]
+                ok_t = len(all_t) == 1 and top and ok_adv and top[0] == adv[0][0] - 1
+                r.ob(bool(ok_t), f"map.abra:{f[1]}:{tv}:trailing-pointer-not-predecessor", MAP, t[-1],
+                     f"map.{f[1]}: `{tv}` is used as the predecessor of `{cur}` when unlinking; it must be set to `{cur}` unconditionally, immediately before the cursor advances - if it is skipped on some iterations the unlink cuts every entry between the stale `{tv}` and the removed one out of the chain",
+                     sample=f"map.{f[1]}: `{tv} = {cur}` immediately before the advance, every iteration")
+                # initialised to the end marker, and the unlink distinguishes the chain head
+                inits = [s for s in A.walk(f[4]) if isinstance(s, tuple) and s and s[0] == "let" and s[2][0] == "pbind" and s[2][1] == tv]
+                r.ob(len(inits) == 1 and A.show(inits[0][4]).replace(" ", "") == "-1", f"map.abra:{f[1]}:{tv}:initial", MAP, t[-1], f"map.{f[1]}: `{tv}` must start as -1 (no predecessor at the chain head)")
+            # match test: hash equality and key equality both dominate the hit
+            hits = [s for s in A.walk(w[2]) if isinstance(s, tuple) and s and s[0] == "return"]
+            for h in hits:
+                conds = []
+                def enclosing(n, target, acc):
+                    if n is target:
+                        return acc
+                    if isinstance(n, tuple):
+                        for i, c in enumerate(n):
+                            if isinstance(c, (tuple, list)):
+                                a2 = acc + [A.show(n[1])] if n and n[0] == "if" and i == 2 else acc
+                                got = enclosing(c, target, a2)
+                                if got is not None:
+                                    return got
+                    elif isinstance(n, list):
+                        for c in n:
+                            got = enclosing(c, target, acc)
+                            if got is not None:
+                                return got
+                    return None
+                conds = enclosing(w[2], h, []) or []
+                txt = " && ".join(conds).replace(" ", "")
+                okm = f"self.entry_hashes[{cur}]==hash_code" in txt and f"self.entry_keys[{cur}]==key" in txt
+                r.ob(okm, f"map.abra:{f[1]}:match-test", MAP, h[-1], f"map.{f[1]}: an entry is the sought one only if its stored hash equals the key's hash and its key equals the key; the hit is taken under `{' && '.join(conds)}`", sample=f"map.{f[1]}: hit under {' && '.join(conds)}")
+        # slots: reuse branch and create branch write the same parallel arrays
+        for x in A.walk(f[4]):
+            if isinstance(x, tuple) and x and x[0] == "if" and "free_list" in A.show(x[1]) and x[3] is not None:
+                wr = sorted({A.show(s[2][1]) for s in A.walk(x[2]) if isinstance(s, tuple) and s and s[0] == "assign" and s[2][0] == "index" and "entry_" in A.show(s[2][1])})
+                pu = sorted({A.show(s[1][1]) for s in A.walk(x[3]) if isinstance(s, tuple) and s and s[0] == "call" and s[1][0] == "member" and s[1][2] == "push" and "entry_" in A.show(s[1][1])})
+                n_slot += 1
+                r.ob(wr == pu and len(wr) >= 5, f"map.abra:{f[1]}:slot-arrays-disagree", MAP, x[-1], f"map.{f[1]}: reusing a free slot writes {wr} while creating a slot pushes {pu}: every per-entry array must be written in both cases, or a reused slot keeps a stale key, value, hash, link or occupancy", sample=f"map.{f[1]}: reuse and create both write {len(wr)} per-entry arrays")
+    r.count("collision-chain walks", n_walk, 3, MAP)
+    r.count("slot allocation sites", n_slot, 1, MAP)
